@@ -52,7 +52,7 @@ pub async fn run_case(backend: &str, seed: u64, rep: &mut Report, corr: &mut Cor
     let mut rng = Rng::new(seed);
     let mut toks = Tokens::default();
     // pre-history: none / one device / all devices edited (no conflict, soft conflict) / server ahead / stale ancestor
-    let pre = *rng.pick(&[0u64, 1, 2, 2, 3, 3, 3, 4, 4, 4]);
+    let pre = *rng.pick(&[0u64, 1, 2, 2, 3, 3, 3, 4, 4, 4, 5, 5]);
     let n_dev = if pre == 4 { 3 } else { rng.range(2, 3) as usize };
     let w = World::new(n_dev, backend).await?;
     let mut script: Vec<String> = vec![format!("world devices={n_dev} backend={backend}")];
@@ -73,6 +73,14 @@ pub async fn run_case(backend: &str, seed: u64, rep: &mut Report, corr: &mut Cor
     // offline edits
     let mut committed: BTreeMap<String, Vec<(String, i128)>> = BTreeMap::new();
     let mut committed_by: BTreeMap<String, Vec<(usize, (String, i128))>> = BTreeMap::new();
+    if pre == 5 {
+        // one device rebuilds the default folder's log (compaction) and syncs: the other devices share no
+        // ancestor with the server any more (hard conflict -> fetch and force merge)
+        let r = { let mut a = w.devices[0].lock().await; match a.default_folder().await { Some(f) => a.compact_folder(f.id()).await.map(|_| ()).map_err(|e| e.to_string()), None => Err("no default folder".into()) } };
+        script.push(format!("d0 compacts the default folder -> {:?}", r.is_ok()));
+        let r = w.sync(0).await; script.push(format!("sync d0 -> {:?}", r));
+        rep.count("pre-history:compaction-on-one-device");
+    }
     if pre == 4 {
         // stale ancestor: d1 makes an old offline edit; d0 edits and syncs; d2 catches up; d0 edits and syncs again;
         // d2 edits offline.  server [..x,s2], d1 [..a1], d2 [..x,b1]: when d1's event is merged in front of x,
@@ -130,7 +138,11 @@ pub async fn run_case(backend: &str, seed: u64, rep: &mut Report, corr: &mut Cor
     let mut all_ok = true;
     for round in 0..rounds {
         for &k in &order {
-            match sync_traced(&w, k, &mut toks, corr, rep).await {
+            // a history rewrite (compaction) travels through the ACCOUNT log and makes the receiving device rebuild its
+            // folder log: outside the single-log model, so these cases are not replayed on it (oracles still apply)
+            let mut scratch = Corr { ops: vec![], imp: vec![] };
+            let corr_here: &mut Corr = if pre == 5 { &mut scratch } else { &mut *corr };
+            match sync_traced(&w, k, &mut toks, corr_here, rep).await {
                 Ok(r) => { if r != "ok" { all_ok = false; } script.push(format!("sync d{k} round{round} -> {r}")); }
                 Err(e) => { all_ok = false; script.push(format!("sync d{k} round{round} -> error {e}")); rep.count("sync:error"); }
             }
@@ -174,8 +186,9 @@ pub async fn run_case(backend: &str, seed: u64, rep: &mut Report, corr: &mut Cor
         let class = format!("{}{}", if all_ok { "success-reported-but-replicas-differ" } else { "no-convergence-after-3-rounds" },
             if any_dup { "-with-byte-identical-events" } else { "-all-events-distinct" });
         rep.spec_fail(&format!("c04-{class}"), json!({"case_seed": seed, "backend": backend, "script": script, "diverged": diverged_logs, "sequences": seqs}), "devices and server do not report the same sync status after editing stopped and every device synced 3 times");
-    } else {
+    } else if pre != 5 {
         // C05: every committed event present exactly once in the converged log, nothing else added
+        // (not after a history rewrite: the property excludes compaction between ancestor and merge)
         for (name, recs) in &slogs {
             let anc: &Recs = ancestor.get(name).map(|v| v).unwrap_or(&EMPTY);
             let mut expect: Vec<&(String, i128)> = anc.iter().collect();
@@ -232,12 +245,47 @@ pub async fn run_case(backend: &str, seed: u64, rep: &mut Report, corr: &mut Cor
                                 _ => {} } } }
                             bad };
                         let gapsfx = if what == "secrets" && inapplicable { "-log-has-update-of-deleted-or-create-of-present" } else { "" };
-                        rep.spec_fail(&format!("c02-served-differs-from-replay-after-{}-{what}{gapsfx}{dupsfx}", if had_offline { "auto-merge" } else { "fast-forward-merge" }),
-                            json!({"case_seed": seed, "backend": backend, "script": script, "device": k, "served": sv.secrets.len(), "replay": rv.secrets.len()}),
+                        // gap predicate: another device rebuilt this folder's log (compaction) while a rename / re-flag was made concurrently
+                        let rwsfx = if pre == 5 && what == "attributes" { "-after-history-rewrite-on-another-device" } else { "" };
+                        rep.spec_fail(&format!("c02-served-differs-from-replay-after-{}-{what}{gapsfx}{dupsfx}{rwsfx}", if had_offline { "auto-merge" } else { "fast-forward-merge" }),
+                            json!({"case_seed": seed, "backend": backend, "script": script, "device": k, "served": sv.secrets.len(), "replay": rv.secrets.len(), "served_attrs": format!("{}|{}|{}", sv.name, sv.flags, sv.desc), "replay_attrs": format!("{}|{}|{}", rv.name, rv.flags, rv.desc)}),
                             "after syncing, the folder served by a device differs from the replay of its own event log");
                     }
                 }
                 (Err(e), _) | (_, Err(e)) => rep.spec_fail("c02-view-error-after-merge", json!({"case_seed": seed, "backend": backend, "script": script, "device": k}), &e),
+            }
+        }
+    }
+    // C02 after a reload: what a device serves after signing out and in again (the persisted vault) equals the replay of its log
+    {
+        let key: sos_core::crypto::AccessKey = w.password.clone().into();
+        for k in 0..n_dev {
+            let mut a = w.devices[k].lock().await;
+            if a.sign_out().await.is_err() { continue; }
+            if let Err(e) = a.sign_in(&key).await { rep.spec_fail("c02-sign-in-after-sync-fails", json!({"case_seed": seed, "backend": backend, "script": script, "device": k}), &e.to_string()); continue; }
+            let _ = a.initialize_search_index().await;
+            let folders: Vec<sos_core::VaultId> = a.list_folders().await.map(|v| v.iter().map(|s| *s.id()).collect()).unwrap_or_default();
+            for id in folders {
+                if let (Ok(sv), Ok(rv)) = (crate::folder::served(&mut a, &id).await, crate::folder::replayed(&a, &id).await) {
+                    let mut x = sv.secrets.clone(); let mut y = rv.secrets.clone(); x.sort(); y.sort();
+                    if sv.name != rv.name || sv.flags != rv.flags || sv.desc != rv.desc || x != y {
+                        let inapplicable = {
+                            use futures::StreamExt; use sos_core::events::{EventLog, WriteEvent}; use sos_sync::StorageEventLogs;
+                            let log = a.folder_log(&id).await.map_err(|e| anyhow::anyhow!(e.to_string()))?; let l = log.read().await;
+                            let st = l.event_stream(false).await; futures::pin_mut!(st);
+                            let mut present = std::collections::BTreeSet::new(); let mut bad = false;
+                            while let Some(r) = st.next().await { if let Ok((_, ev)) = r { match ev {
+                                WriteEvent::CreateSecret(i, _) => { if !present.insert(i) { bad = true; } }
+                                WriteEvent::UpdateSecret(i, _) => { if !present.contains(&i) { bad = true; present.insert(i); } }
+                                WriteEvent::DeleteSecret(i) => { present.remove(&i); }
+                                _ => {} } } }
+                            bad };
+                        let what = if x != y { "secrets" } else { "attributes" };
+                        let gapsfx = if what == "secrets" && inapplicable { "-log-has-update-of-deleted-or-create-of-present" } else { "" };
+                        let dupsfx = if has_dups(&format!("folder:{}", id)) { "-with-byte-identical-events" } else { "-all-events-distinct" };
+                        rep.spec_fail(&format!("c02-served-differs-from-replay-after-reload-merge-{what}{gapsfx}{dupsfx}"), json!({"case_seed": seed, "backend": backend, "script": script, "device": k, "served": sv.secrets.len(), "replay": rv.secrets.len()}), "after syncing and signing in again, the folder served by a device differs from the replay of its own event log");
+                    }
+                }
             }
         }
     }
